@@ -1,7 +1,7 @@
 (* C01 - BER encode/decode round trip under every encoder mode.  Statements only. *)
 From PV Require Import Base.Bytes Model.Tag Model.TableTypes Model.Types Model.Enc Model.Dec Gen.Tables
      Proofs.TagOctets Proofs.TagsetShape Proofs.RoundTrip1 Proofs.RoundTrip2 Proofs.RoundTrip3b Proofs.RoundTrip3e Proofs.RoundTrip3f
-     Proofs.RoundTripModesC Proofs.RoundTripModes.
+     Proofs.RoundTripModesC Proofs.RoundTripModes Proofs.RoundTripModes3.
 Local Open Scope N_scope.
 
 (* the framing octets invert *)
@@ -121,3 +121,26 @@ Proof.
   exists (TExp (mkTag Ctx false 1) TInt), (VInt 5), [161; 3; 2; 1; 5; 0; 0].
   split; vm_compute; [reflexivity|discriminate].
 Qed.
+
+(* EVERY TYPE x EVERY MODE, for every input: the stage-3 universe (every type constructor) in
+   definite, indefinite and segmented mode of the BER encoder, the CER encoder and the DER encoder
+   (stable ce d k: the options are ones the codec does not override), decoders BER and CER (DER refuses
+   indefinite lengths and segmented strings).  Excluded, in indefinite mode only: finding F01 (no_f01),
+   and a tagged ANY whose payload is not a sequence of complete definite-length TLVs (anys_ok: such a
+   payload cannot be delimited once lengths are indefinite) *)
+Theorem C01_roundtrip_every_mode_every_type : forall ce cd d k T v b tl,
+  stable ce d k -> dec_ok cd ->
+  stage3_ty false ce T = true -> (d = false -> RoundTripModes.no_f01 T = true) ->
+  stage3_val ce cd T v = true -> (d = false -> anys_ok T v = true) ->
+  encode ce d k T v = Ok b -> N.of_nat (length b) <= index_max ->
+  exists v', decode cd (Some T) (b ++ tl) = Ok (DV T v', tl) /\ abs T v' = abs T v.
+Proof. exact roundtrip_modes3. Qed.
+Print Assumptions C01_roundtrip_every_mode_every_type.
+
+Theorem C01_roundtrip_indefinite_stage3 : forall cd chunk T v b tl,
+  dec_ok cd -> stage3_ty false BER T = true -> RoundTripModes.no_f01 T = true ->
+  stage3_val BER cd T v = true -> anys_ok T v = true ->
+  encode BER false chunk T v = Ok b -> N.of_nat (length b) <= index_max ->
+  exists v', decode cd (Some T) (b ++ tl) = Ok (DV T v', tl) /\ abs T v' = abs T v.
+Proof. exact roundtrip_indefinite_stage3. Qed.
+Print Assumptions C01_roundtrip_indefinite_stage3.
